@@ -198,9 +198,56 @@ def init_oracle(rng, tier, reasons):
     return fails
 
 
+COG_DEFINED = [2, 3, 4, 5, 6, 8, 9, 10, 11, 12, 13, 14, 16, 17, 18, 21]
+
+FINITE_SCRIPT = r"""
+import importlib
+def main(cases):
+    out = []
+    for c in cases:
+        try:
+            S = getattr(importlib.import_module(c['module']), c['class'])(**c['params'])
+            sol = S(np.array(c['r'], dtype=float), c['t'])
+            bad = [nm for nm in sol.dtype.names if not np.all(np.isfinite(np.asarray(sol[nm], dtype=float)))]
+            out.append({'bad': bad})
+        except Exception as e:
+            out.append({'error': type(e).__name__ + ': ' + str(e)[:200]})
+    return out
+"""
+
+
+def cog_finite_oracle(rng, tier, reasons):
+    """failing-input search for the Coggeshall definedness theorems: the real solvers at their class defaults (and the
+    geometry wrappers), many positions and in-domain times; any non-finite value is a violation of 'valid requests inside the
+    domain never produce NaN or infinity'."""
+    cases = []
+    for i in COG_DEFINED:
+        for cls in ('Cog%d', 'PlanarCog%d', 'CylindricalCog%d', 'SphericalCog%d'):
+            for _ in range(3 if tier == 'quick' else 12):
+                tmax = 1.2 if i in (6, 7, 18) else 5.0          # class default tau = 1.25
+                params = {'Gamma': 40.0} if i in (11, 12) else {}
+                cases.append({'module': 'exactpack.solvers.cog.cog%d' % i, 'class': cls % i, 'params': params,
+                              'r': [round(10 ** rng.uniform(-3, 1.5), 6) for _ in range(12)], 't': round(rng.uniform(1e-3, tmax), 6)})
+    res = H.run_real(FINITE_SCRIPT, cases, timeout=900)
+    fails = []
+    for c, r in zip(cases, res):
+        if r.get('error', '').startswith(('AttributeError', 'ValueError')):
+            continue                                     # wrapper does not exist / geometry not accepted by this class
+        if r.get('bad') or r.get('error'):
+            fails.append({'class': c['module'] + '.' + c['class'], 'params': c['params'] or 'defaults', 'r': c['r'], 't': c['t'], 'observed': r})
+    return fails
+
+
 UNITS = [
     flow.Unit('constructor-guards', groups=['inits'], props=['props/C20_init.v'], custom_corr=init_corr, oracle=init_oracle),
     flow.Unit('definedness', groups=['noh', 'noh2', 'cog1', 'cog19'], props=['props/C20_defined.v']),
+    flow.Unit('definedness-coggeshall', groups=['cog%d' % i for i in COG_DEFINED], props=['props/C20_defined_cog.v'],
+              corr=[c for u in __import__('props.c01', fromlist=['UNITS']).UNITS if u.name in ['cog%d' % i for i in COG_DEFINED]
+                    for c in [dict(cc, n=2) for cc in u.corr]],
+              oracle=cog_finite_oracle, always_oracle=True,
+              note='Coggeshall 2-6, 8-14, 16-18, 21: the parameter-only conjuncts of the generated definedness condition imply the whole condition at every '
+                   'r > 0, t > 0 (t < tau): no position- or time-dependent singularity inside the documented domain (theorems on the regenerated field '
+                   'expressions; failing-input search: non-finite values of the real solvers at the class defaults)'),
     flow.Unit('documented-restrictions-real-code', groups=[], props=[], oracle=lambda rng, tier, reasons: __import__('restrict_oracle').oracle(rng, tier, reasons),
               always_oracle=True,
               note='classes whose guards are outside the translated subset: Kenamond2 constructor against its documented restrictions (incl. the ordering of detonation '
